@@ -5,6 +5,8 @@ Set Printing Depth 1000.
 Check @parse_complete.
 Check @option_is_recognised.
 Check @print_parse_roundtrip.
+Check @struct_parse_complete.
 Print Assumptions parse_complete.
 Print Assumptions option_is_recognised.
 Print Assumptions print_parse_roundtrip.
+Print Assumptions struct_parse_complete.
